@@ -173,3 +173,100 @@ def _(c):
 def _(c):
     c.ghost("cal", AbsCalG()).arg("self", OffsetDateTimeG()).arg("other", OffsetDateTimeG())
     c.returns(lambda a, r: Iff(r, And(local_ns(a, a.self) == local_ns(a, a.other), V.ot_off(V.odt_ot(a.self)) == V.ot_off(V.odt_ot(a.other)))))
+
+
+# ------------------------------------------------------------------------------------------ ZonedDateTime over an abstract zone
+import z3 as _z3  # noqa: E402
+
+from pyvc import sym as _sym  # noqa: E402
+from pyvc.contracts import Gen  # noqa: E402
+from pyvc.sym import SInt as _SInt  # noqa: E402
+
+ZDT = "pyoda_time._zoned_date_time:ZonedDateTime"
+ZOFF = _z3.Function("ZONE_OFFSET_SECONDS", _z3.IntSort(), _z3.IntSort())  # the zone's offset at an instant (ns)
+
+
+def zoff(t):
+    return _sym.mk_int(ZOFF(_SInt.lift(t)))
+
+
+class AbsZoneG(Gen):
+    """any time zone, seen through get_utc_offset: some offset within +-18 h at every instant"""
+
+    def make(self, name, b):
+        from pyvc.values import SObj
+        from pyoda_time import DateTimeZone
+
+        z = SObj(DateTimeZone, {"_DateTimeZone__id": "Abstract/Zone"}, owner=-1, tag=name)
+        b.named[name] = z
+        return z
+
+
+def _zone_setup(eng):
+    _setup(eng)
+    from pyvc.values import SObj
+    from pyoda_time import DateTimeZone, Offset
+
+    def m_off(eng, self_, instant):
+        s = zoff(V.inst_ns(instant))
+        eng.assume(And(s >= -64800, s <= 64800))
+        return SObj(Offset, {"_Offset__seconds": s}, owner=eng.active_runs[-1])
+
+    eng.func_models[vars(DateTimeZone)["get_utc_offset"]] = m_off
+
+
+class ZonedG(Gen):
+    def make(self, name, b):
+        from pyvc.values import SObj
+        from pyoda_time._zoned_date_time import ZonedDateTime
+
+        odt = OffsetDateTimeG("cal").make(name + ".odt", b)
+        zone = b.named.get("zone") or AbsZoneG().make("zone", b)
+        cal = b.named["cal"]
+        # class invariant: the stored offset is the zone's offset at the instant the value denotes
+        t = (ld_dse_c(cal, V.odt_date(odt)) * V.NPD + V.ot_n(V.odt_ot(odt))) - V.ot_off(V.odt_ot(odt)) * V.NPS
+        b.assume(And(zoff(t) == V.ot_off(V.odt_ot(odt)), V.inst_in_range(t)))  # ... and that instant is a valid Instant
+        return SObj(ZonedDateTime, {"_ZonedDateTime__offset_date_time": odt, "_ZonedDateTime__zone": zone}, owner=-1, tag=name)
+
+
+def ld_dse_c(cal, d):
+    from specs import cal_abs as _CA
+
+    return _CA.dse(cal.cid, V.ld_y(d), V.ld_m(d), V.ld_d(d))
+
+
+def zdt_instant_ns(a, z):
+    odt = V.fld(z, "_ZonedDateTime__offset_date_time")
+    return ld_dse_c(a.cal, V.odt_date(odt)) * V.NPD + V.ot_n(V.odt_ot(odt)) - V.ot_off(V.odt_ot(odt)) * V.NPS
+
+
+def zdt_ok(a, r, t):
+    """r denotes instant t in the zone: offset = the zone's offset at t, local = t + offset, calendar and zone kept"""
+    odt = V.fld(r, "_ZonedDateTime__offset_date_time")
+    return And(same_cal(a.cal, odt), zdt_instant_ns(a, r) == t, V.ot_off(V.odt_ot(odt)) == zoff(t), V.fld(r, "_ZonedDateTime__zone") is a.zone)
+
+
+@contract(ZDT + ".__add__", "C11", name="ZonedDateTime + Duration: the instant moves by exactly the duration and the offset is the zone's offset AT THE NEW INSTANT; calendar and zone kept")
+def _(c):
+    c.ghost("cal", AbsCalG("cal")).ghost("iso", IsoAbsCalG("iso")).ghost("zone", AbsZoneG()).arg("self", ZonedG()).arg("other", DurationG())
+    c.setup = _zone_setup
+    c.crosscheck = 0
+    c.replayable = False
+    c.timeout_s = 120
+    want = lambda a: zdt_instant_ns(a, a.self) + V.ns(a.other)  # noqa: E731
+    local_day = lambda a: (want(a) + zoff(want(a)) * V.NPS) // V.NPD  # noqa: E731
+    ok = lambda a: And(V.inst_in_range(want(a)), day_in(a.cal, want(a) + zoff(want(a)) * V.NPS))  # noqa: E731
+    c.returns(lambda a, r: zdt_ok(a, r, want(a)), when=ok)
+    c.raises(*RANGE, when=lambda a: Not(ok(a)))
+    _ = local_day
+
+
+@contract(ZDT + ".to_instant", "C11", name="ZonedDateTime.to_instant: local time minus the stored offset")
+def _(c):
+    c.ghost("cal", AbsCalG("cal")).ghost("zone", AbsZoneG()).arg("self", ZonedG())
+    c.setup = _zone_setup
+    c.crosscheck = 0
+    c.replayable = False
+    t = lambda a: zdt_instant_ns(a, a.self)  # noqa: E731
+    c.returns(lambda a, r: V.is_instant_of(r, t(a)), when=lambda a: V.inst_in_range(t(a)))
+    c.raises(*RANGE, when=lambda a: Not(V.inst_in_range(t(a))))
